@@ -313,6 +313,11 @@ class Scan:
         self.ev(n.body, env2)
         return EMPTY
 
+    def ev_Yield(self, n, env):
+        if n.value is not None:
+            self.ev(n.value, env)
+        return EMPTY
+
     def ev_NamedExpr(self, n, env):
         v = self.ev(n.value, env)
         env[n.target.id] = flat(v)
@@ -709,6 +714,23 @@ class Scan:
             for it in s.items:
                 self.ev(it.context_expr, env)
             return self.block(s.body, env, rlist)
+        if isinstance(s, ast.Try):
+            e0 = dict(env)
+            self.block(s.body, env, rlist)
+            joined = self.join(e0, env)
+            for h in s.handlers:
+                eh = dict(joined)
+                if h.name:
+                    eh[h.name] = EMPTY
+                self.block(h.body, eh, rlist)
+                joined = self.join(joined, eh)
+            env.clear()
+            env.update(joined)
+            self.block(s.orelse, env, rlist)
+            self.block(s.finalbody, env, rlist)
+            return "fall"
+        if isinstance(s, (ast.Global, ast.Nonlocal, ast.Import, ast.ImportFrom)):
+            return "fall"
         raise TranslateError("%s: statement %s at line %s" % (self.fn, type(s).__name__, s.lineno))
 
     def loop(self, s, env, rlist):
